@@ -74,6 +74,9 @@ int main(int argc, char** argv)
         parse("3;drop;drop;drop"),
         parse("4;wait,wait,wait;wait,wait,drop;wait,drop;drop"),
         parse("2;wait,drop;wait,wait"),
+        // lapping: a fast thread re-enters (and finally drops) while the slow one is still inside cv.wait
+        parse("2;wait,wait,wait,wait;wait,wait,wait,drop"),
+        parse("3;wait,wait,drop;wait,drop;wait,wait,wait"),
     };
     return client_main(argc, argv, directed, gen, exec);
 }
